@@ -78,6 +78,18 @@ def correspondence(ctx):
         if rng.random() < 0.5:
             pats.append(prog)
             meta.append(('self', {'names': {}, 'exps': {}, 'steps': ['whole-again']}))
+        # the last sentence of the property for ARBITRARY patterns: q, then a generalisation of q (holes + dropped
+        # siblings): if q matches, so must the generalisation
+        for _ in range(rng.randrange(1, 4)):
+            q = rng.choice(caitgen.HAND_PATTERNS) if rng.random() < 0.6 else caitgen.random_pattern(rng)
+            try:
+                gq, gexp = caitgen.derive(rng, q, allow=('hole', 'drop'))
+            except (caitgen.Refuse, SyntaxError):
+                continue
+            pats.append(q)
+            meta.append(('base', None))
+            pats.append(gq)
+            meta.append(('generalised', {'names': {}, 'exps': {}, 'steps': gexp['steps']}))
         perturb = {}
         if rng.random() < 0.6:
             for pi in range(len(pats) - 1):
@@ -103,6 +115,15 @@ def correspondence(ctx):
             if exp:
                 for s in exp.get('steps', []):
                     ctx.count('step:' + s.split(':')[0])
+            if kind == 'generalised' and pi > 0 and case['meta'][pi - 1][0] == 'base':
+                prev = rec['runs'][pi - 1]
+                if prev['crash'] is None and prev['matches'] and not run['matches']:
+                    ctx.violation('generalisation-lost-the-match',
+                                  {'program': case['program'], 'patterns': case['patterns'][:pi + 1], 'pattern': pat, 'base_pattern': case['patterns'][pi - 1],
+                                   'why': 'pattern %r matches (%d) but its generalisation %r (%s) does not'
+                                          % (case['patterns'][pi - 1], len(prev['matches']), pat, ', '.join(exp['steps']))})
+                if prev['crash'] is None and prev['matches']:
+                    ctx.count('generalised-after-a-match')
             if kind not in ('derived', 'self'):
                 continue
             replay = {'program': case['program'], 'patterns': case['patterns'][:pi + 1], 'pattern': pat, 'derivation': exp}
